@@ -132,7 +132,7 @@ def meta_proj(v, toks):
     if isinstance(v, (int, float, np.integer, np.floating)):
         f = float(v)
         if f != f or f in (float("inf"), float("-inf")):
-            return ["s", toks.tok("nonfinite" + repr(f))]
+            return ["x", toks.tok("nonfinite" + repr(f))]      # not representable on a FITS header card
         return ["n", bits(f)]
     return ["s", toks.tok("s" + str(v))]
 
@@ -374,7 +374,7 @@ def scheduler_ctx(name):
 
 
 def run_compute(spec, seed, scheduler="sync", write_stages=True, fault=None, out_dir=None, sink=None, keep_table=False,
-                out_name="out.fits"):
+                out_name="out.fits", path_form="str"):
     """One compute() run -> (events, final_table or None).  fault: None | ("boundary", k, "raise"|"exit") |
     ("stage", name)."""
     use_repo()
@@ -406,7 +406,10 @@ def run_compute(spec, seed, scheduler="sync", write_stages=True, fault=None, out
             import io
             import contextlib
             with contextlib.redirect_stdout(io.StringIO()):
-                sim = comp_mod.compute(cfg, verbose=False, output_file=out, write_stages=write_stages)
+                # the output file as the caller spells it: a str or a path object (both are file names)
+                import pathlib
+                out_arg = pathlib.Path(out) if path_form == "pathlib" else out
+                sim = comp_mod.compute(cfg, verbose=False, output_file=out_arg, write_stages=write_stages)
     except InjectedFault as ex:
         outcome, exc = "raise", ex
     except Exception as ex:
